@@ -102,10 +102,15 @@ CLAIMS['C01'] = {
              'ALLOCATOR - Lower::get (search, every order up to the tree order), Lower::get_at and Lower::put of held blocks, with the huge-entry counters '
              'and whole-huge markers: from any quiescent state, for any number of threads, any command lists and every schedule, small blocks of different '
              'threads never overlap, huge blocks never overlap, and no frame is held both inside a small and a huge block; blocks are aligned. The invariant '
-             '(LInv) is counter + open accounts of the threads = zero bits of the bitfield, and a marked huge frame has an empty bitfield.' + PART +
-             'for the upper level (tree counters, reservations, local slots) the all-interleavings statement is not a theorem; that part is explored by '
-             'scheduler-controlled runs of the real threads (preemption-bounded DFS + random schedules) whose event traces are replayed on the Lean '
-             'interleaving semantics.'),
+             '(LInv) is counter + open accounts of the threads = zero bits of the bitfield, and a marked huge frame has an empty bitfield. Theorems '
+             'conc_public_api_blocks_disjoint / conc_get_returns_unheld_block: the same at the PUBLIC INTERFACE - LLFree::get with any request (with or '
+             'without target; every path: own reservation with sync, search_and_reserve, reserve_or_steal, steal_global, stealing and demoting other slots) '
+             'and LLFree::put of held blocks at their allocation order, started from ANY contents of the tree array and the local slots: the upper level only '
+             'writes these volatile arrays and calls Lower::get / Lower::put, so blocks held by any number of threads under any schedule are pairwise '
+             'disjoint, aligned and marked allocated (upper-level panics are tolerated in this statement; they are C03/C09).' + PART +
+             'callers that free only a part of a block under interleavings (K1 lives there) are outside the all-interleavings theorems (held blocks are '
+             'also proved to lie inside the managed range, and drain may be interleaved); explored by scheduler-controlled runs of the real threads (preemption-bounded DFS '
+             '+ random schedules) whose event traces are replayed on the Lean interleaving semantics.'),
     'note': TB + ' Upper-level theorems hold for configurations satisfying CfgOk (class ids < 8, ordered policy, tree size < 2^19: every configuration of the repository; derived from elementary checks by CfgOk.of_checks); they depend on the C23 theorem (bv_decide axioms) through the lower search.',
     'technique': 'Lean 4 refinement proof (all sequential histories) + rely/guarantee ownership invariants over the single-access interleaving semantics (bitfields and the whole lower allocator, all schedules, any number of threads) + trace co-simulation of real threads with an ownership oracle',
 }
@@ -132,6 +137,8 @@ CLAIMS['C03'] = {
              'conc_lower_put_of_held_succeeds: for the WHOLE LOWER ALLOCATOR (Lower::get / get_at / put with counters and markers), for callers that free '
              'blocks at the order they were allocated with, under every interleaving of any number of threads no call panics (Undo failed, undo failed, '
              'Inc failed, Failed undo search are unreachable; partial_put_huge, where K1 lives, is never entered) and every free of a held block returns Ok.'
+             ' Theorem conc_successful_get_allowed: the last clause of the property for the public LLFree::get, every path, every interleaving: a '
+             'successful allocation returns an aligned block none of whose frames was held.'
              + PART + 'panic-freedom of the upper level (tree counters, reservations) and of partial frees of huge allocations under all interleavings '
              'is explored (DFS/random schedules with panic capture and the held-free oracle, sequential histories), not proved; K1 shows that the '
              'restriction to frees at allocation order is necessary.'),
@@ -159,8 +166,10 @@ CLAIMS['C05'] = {
              'any history may follow. Theorems conc_crash_anywhere_recovers / conc_counters_never_over_report: a crash at ANY instant of ANY interleaving of '
              'any number of threads using the lower allocator (Lower::get / get_at / put at allocation order) leaves a state satisfying CrashInv; recovery '
              'from it re-establishes the full lower invariant and everything any thread held at the crash - completed allocations and the holdings of calls '
-             'in flight - is still allocated afterwards (so it can be freed at its order); counters never over-report in between.' + PART +
-             'crashes inside upper-level call sequences that free part of a huge allocation (partial_put_huge, K1) are outside the theorem: crash points '
+             'in flight - is still allocated afterwards (so it can be freed at its order); counters never over-report in between. Theorem '
+             'conc_crash_anywhere_public_api: the same for threads at the public interface (LLFree::get on every path, LLFree::put at allocation order), '
+             'from any contents of the volatile arrays.' + PART +
+             'call sequences that free part of a huge allocation (partial_put_huge, K1) are outside the theorems: crash points '
              'before atomic writes of explored schedules are recovered with the real code and checked (held blocks allocated and freeable, frames '
              'allocated by the setup still allocated, accounting consistent).'),
     'note': TB + ' A crash is modelled as loss of everything but the lower buffer at an atomic-access boundary.',
